@@ -303,7 +303,7 @@ theorem etagMatch_suffix (s rest : Str) (w : Bool) (a b : Option Str)
 /-- what `parse_etags` does with the outcome of its loop -/
 def loopOut : Pre.Loop (Except String Obj) (Elems × Elems × Int) → Except String Obj
   | .ret r => r
-  | .fall (weak, strong, _) => .ok (etags_init (some strong) (some weak) false)
+  | .fall (strong, weak, _) => .ok (etags_init (some strong) (some weak) false)
 
 /-- the `ETags` object for the model's list-based value: `ETags(strong, weak, star_tag=star)` -/
 def objOfHttp (e : Http.ETags) : Obj := etags_init (some e.strong) (some e.weak) e.star
@@ -335,7 +335,7 @@ onto reversed accumulators). Every iteration consumes at least one character, wh
 `len(s) + 1` units of fuel suffice. -/
 theorem parse_etags_loop_eq (value : Str) : ∀ (fuel : Nat) (s : Str) (st wk : Elems),
     s <:+ value → '\n' ∉ s → s.length < fuel →
-    loopOut (parse_etags.loop1 value (value.length : Int) fuel wk.reverse st.reverse
+    loopOut (parse_etags.loop1 value (value.length : Int) fuel st.reverse wk.reverse
         ((value.length : Int) - (s.length : Int)))
       = .ok (objOfHttp (Http.parseEtagsGo fuel s st wk)) := by
   intro fuel
